@@ -258,6 +258,7 @@ func domMV(r *gen.Rng, n int, thorough bool, o *Out) {
 				if !tainted {
 					// translated to the base version, run A equals run B: object and records
 					clause, det := "", ""
+					otherDiffers := ""
 					back, err := conv.Convert(liveA, "v1")
 					if err != nil {
 						clause, det = "object", err.Error()
@@ -273,8 +274,16 @@ func domMV(r *gen.Rng, n int, thorough bool, o *Out) {
 								if ok {
 									det += " single-version " + vb.Set().String()
 								}
+								if k != mgr {
+									otherDiffers = k
+								}
 							}
 						}
+					}
+					if otherDiffers != "" && !split {
+						// C05 with the single-version run as the reference: another manager's record must lose exactly
+						// the fields the operation changed, whatever version it is recorded at
+						o.Fail("C05", "others/lose-exactly-changed-fields/versioned", det, "others/lose-exactly-changed-fields/versioned "+op, op)
 					}
 					if clause != "" {
 						sig := "versioned-run-equals-single-version-run/" + clause + " " + op
